@@ -353,3 +353,7 @@ PROPS["C06"]["extras"] = [{"component": "stress", "race": True, "timeout": 600}]
 PROPS["C06"]["race"] = True
 PROPS["C06"]["rule"] += (" extra (race-detector binary): 12 rounds of the txcache-evict and txcache-limits stress phases; after all goroutines have finished, further insertions must leave "
                          "the pool within threshold + the transaction just added (eviction keeps running), per-sender count limit probed at every instant.")
+
+PROPS["C16"]["coq_props"] = ["C16", "C16b"]
+PROPS["C16"]["assumptions"] = [a for a in PROPS["C16"]["assumptions"] if not a.startswith("LRU / SizeLRU / FIFOSharded satisfy cacher_laws")] + [
+    "cacher_laws are PROVED for the models of the sized LRU, the plain LRU, the lruCache wrapper and the FIFO sharded cache (Props/C16b.v); those models are tied to the Go caches by the C15/C20 checks"]
